@@ -261,6 +261,17 @@ def step (line : String) : String :=
             ("params", Json.arr (sg.params.map fun p => Json.mkObj [("name", Json.str (String.ofList p.name)), ("kwonly", Json.bool p.kwOnly),
                 ("annotation", ostr p.annotation), ("default", valToJson p.default)]).toArray),
             ("var_kw", Json.bool sg.hasVarKw), ("return", ostr sg.returnAnnotation)])]).compress)
+    | .ok "ir_merge" =>
+      let plist (k : String) : ODict Param := match j.getObjVal? k with
+        | .ok (Json.arr a) => a.toList.filterMap fun kv => match kv with
+          | Json.arr #[Json.str n, pj] => some (n.toList, paramOfJson pj)
+          | _ => none
+        | _ => []
+      let sigma : List Str := match j.getObjVal? "sigma" with
+        | .ok (Json.arr a) => a.toList.filterMap fun x => match x with | Json.str s => some s.toList | _ => none
+        | _ => []
+      let out := irMergeParams (plist "target") (plist "other") sigma
+      (Json.mkObj [("ok", Json.arr (out.map fun (k, p) => Json.arr #[Json.str (String.ofList k), paramToJson p]).toArray)]).compress
     | .ok "conform" =>
       let b (k : String) := (j.getObjValAs? Bool k).toOption.getD false
       let o : Conform.Obs := { fileExists := b "exists", found := b "found", cmpEq := b "cmp_eq",
